@@ -185,6 +185,11 @@ def run(analysis: Analysis, tier: str) -> RuleResult:
     c03.header_rules(analysis, _L)
     # the "unusable version falls back to 1.4" clause and the version payload rule rest on is_version's floor test
     c03.is_version_floor(analysis, res, "C04-L:C03-R3b")
+    # reported and desired values are different objects: a desired-state record never shares its value map with the
+    # child it belongs to (else a report clears itself and a desired value shows up as reported) - C08-R3, shared
+    from . import c08
+
+    c08.desired_records(analysis, res, "C04-R2")
     specs = specs_for(analysis, tier)
     recs = common.pmap(analysis, pathsum.logic_records, specs)
     res.contexts = ["/".join(s) for s in specs]
